@@ -209,7 +209,9 @@ def run_shard(shard: Dict[str, Any], run: Any) -> None:
 def _run_random(run: Any) -> None:
     """Beyond the exhaustive bound: 5..6 protoclusters on 8 cells."""
     rng = run.rng
-    while not run.out_of_time():
+    for _ in range(20000):                 # bounded, so that the evidence stays of a sane size
+        if run.out_of_time():
+            break
         circular = rng.random() < 0.6
         shapes = _shapes(8, circular, (1, 2, 3), (0, 1, 2))
         count = rng.choice((5, 5, 6))
